@@ -1,6 +1,7 @@
 /-
 C06 (a) — "every non-void element closed in order", for the template model: the rendering of every token tree that
-meets the decidable hypotheses is balanced, at every depth.  Same tested hypothesis as C02Tags (`StripAgrees`).
+meets the decidable hypotheses is balanced, at every depth.  Same hypothesis as C02Tags (`StripAgrees`), proved in
+`MistuneProofs/C02Strip.lean`, where the hypothesis-free corollary `render_balanced_closed` stands.
 
 FOUND WHILE PROVING: the tree theorem `renderTok_balanced` is FALSE for an arbitrary `TagTable` as first stated
 (kernel-checked counterexample `ceBal` at the end): `balRunPieces` has a hole — an integer argument met inside a tag after
